@@ -281,40 +281,37 @@ func c07Pairing(c *Ctx, p *Prog, fp *packages.Package) {
 	if file == nil {
 		return
 	}
-	sws := FindSwitches(file, func(tag ast.Expr) bool { return strings.Contains(types.ExprString(tag), "DetectLang") })
-	if len(sws) == 0 {
-		c.Undecided(rule, "format.File: switch on the detected language", p.Pos(file.Pos()), "switch not found")
-		return
-	}
-	want := map[string][2]string{
-		"LangType_Wa": {"internal/parser", "internal/printer"},
-		"LangType_Wz": {"internal/parser/w2parser", "internal/printer/w2printer"},
-	}
+	// format.File is read once per language with the detected language fixed (c07_lang.go): whatever the form of the
+	// dispatch (switch arms, shared arms with an inner test, a function-valued local), the functions that can run for
+	// that language must use the parser and the printer of that language and no others.
 	n := 0
-	for _, arm := range SwitchArms(info, sws[0]) {
-		for _, k := range arm.Consts {
-			w, ok := want[k.Name]
-			if !ok {
-				continue
-			}
-			n++
-			got := map[string]bool{}
-			for _, call := range callsIn(info, arm.Body) {
-				if fn := CalleeOf(info, call); fn != nil && fn.Pkg() == fp.Types {
-					for u := range uses(FuncDecl(fp, fn.Name())) {
-						got[u] = true
-					}
-				}
-			}
-			var gl []string
-			for g := range got {
-				gl = append(gl, g)
-			}
-			sort.Strings(gl)
-			good := got[w[0]] && got[w[1]] && len(got) == 2
-			c.Check(good, rule, "format.File: "+k.Name, p.Pos(arm.Clause.Pos()), "uses "+strings.Join(gl, " + "),
-				fmt.Sprintf("sources detected as %s are formatted with %s; they must be parsed by %s and printed by %s (another pairing rejects or rewrites the program in the other surface syntax)", k.Name, strings.Join(gl, " + "), w[0], w[1]))
+	var langs []string
+	for k := range langConstNames() {
+		langs = append(langs, k)
+	}
+	sort.Strings(langs)
+	for _, k := range langs {
+		w := langConstNames()[k]
+		calledFns, dispatches := langCalls(info, fp, file, k)
+		if dispatches == 0 {
+			c.Undecided(rule, "format.File: dispatch on the detected language", p.Pos(file.Pos()), "no switch on, or comparison of, the result of xlang.DetectLang found")
+			return
 		}
+		n++
+		got := map[string]bool{}
+		for fn := range calledFns {
+			for u := range uses(FuncDecl(fp, fn.Name())) {
+				got[u] = true
+			}
+		}
+		var gl []string
+		for g := range got {
+			gl = append(gl, g)
+		}
+		sort.Strings(gl)
+		good := got[w[0]] && got[w[1]] && len(got) == 2
+		c.Check(good, rule, "format.File: "+k, p.Pos(file.Pos()), "uses "+strings.Join(gl, " + "),
+			fmt.Sprintf("sources detected as %s are formatted with %s; they must be parsed by %s and printed by %s (another pairing rejects or rewrites the program in the other surface syntax)", k, strings.Join(gl, " + "), w[0], w[1]))
 	}
 	c.Min(rule, "language arms", n, 2)
 }
